@@ -219,7 +219,7 @@ def main(prop, tier):
             rep.add_model_check('EmuMachine[tree %d] Confluent NormInv (all interleavings)' % w, res)
     if prop == 'C08':
         # R7: the transcription of the implementation's walker refines the requirement and terminates
-        for w in range(1, 7):
+        for w in range(1, 9):
             cfg = ('SPECIFICATION Spec\nCONSTANTS\n Which = %d\n Fixed = TRUE\nINVARIANT Safety\nINVARIANT PrefixOK\n'
                    'PROPERTY Termination\nCHECK_DEADLOCK FALSE\n' % w)
             res = core.run_tlc('WalkAlg', cfg, wd, workers=1)
